@@ -108,13 +108,18 @@ def _abstract(target, clients):
 
 
 def op_budget(L):
-    return 4000 * (len(L) + 30)
+    return RL.budget_for(RL.LAST_MODEL_COST)
 
 
 def execute(cls, scenario, ctx):
     tspec = scenario["target"]
     unbounded = bool(tspec.get("unbounded"))
-    L = RL.model_list(tspec, bound=120)
+    try:
+        L = RL.model_list(tspec, bound=120)
+    except RL.ModelTooCostly:
+        ctx.event("model-too-costly")
+        ctx.count("skipped_costly")
+        return
     base = RL.dt(tspec.get("dtstart") or tspec.get("base"))
     target = RL.build_target(tspec)
     ctx.event("target", tspec.get("kind", "rule"), len(L), unbounded)
@@ -146,8 +151,10 @@ def execute(cls, scenario, ctx):
         return
     # threads ------------------------------------------------------------
     st = scenario["sched"]
+    nops = sum(len(p) for p in scenario["threads"])
     sched = Scheduler(st["strategy"], st.get("seed", 0),
-                      tape=st.get("tape"), max_steps=400000)
+                      tape=st.get("tape"),
+                      max_steps=op_budget(L) * (nops + 2))
     clients = []
     for i, prog in enumerate(scenario["threads"]):
         cl = RL.Client(ctx, target, L, base, "T%d" % i, unbounded)
